@@ -135,7 +135,8 @@ def run_property(pid, plan, tier, seed, jobs, t0):
             assumed.add(x)
         funcs.append({"function": r["target"], "kind": r.get("kind"), "file": r.get("file"), "source_sha": r.get("source_sha"),
                       "paths": r.get("paths"), "obligations": len(r.get("obligations", {})), "canary": r.get("canary"),
-                      "wall_s": r.get("wall")})
+                      "wall_s": r.get("wall"),
+                      "slowest_query_s": max([o.get("max_piece_s", 0) or 0 for o in r.get("obligations", {}).values()] or [0])})
     for ln in lines:
         print(ln)
     rc = 0
